@@ -28,7 +28,12 @@ pub fn run(ctx: &mut Ctx) {
         // degree in {0, supported-1, supported, supported+1, supported+3}
         let degs = [0usize, supported.saturating_sub(1), supported, supported + 1, supported + 3];
         let deg = degs[range(&mut rng, 0, degs.len() - 1)];
-        let p = UniPoly::rand(deg, &mut rng);
+        let mut p = UniPoly::rand(deg, &mut rng);
+        // half of the cases: X^k·q — the low-order coefficients the committer skips must not hide an oversize degree
+        let low_zeros = if deg >= 1 && coin(&mut rng) { range(&mut rng, 1, deg) } else { 0 };
+        for c in p.coeffs.iter_mut().take(low_zeros) {
+            *c = Fr::from(0u64);
+        }
         // hiding in {None, 0, supported-1, supported, supported+1}
         let hbs = [None, Some(0usize), Some(supported.saturating_sub(1)), Some(supported), Some(supported + 1)];
         let hb = hbs[range(&mut rng, 0, hbs.len() - 1)];
@@ -59,7 +64,7 @@ pub fn run(ctx: &mut Ctx) {
         if answered != in_domain {
             ctx.rep.expect_fail(&id, if answered { "kzg10/out-of-domain-answered" } else { "kzg10/in-domain-refused" },
                 &format!("commit: in_domain={} but answered={}", in_domain, answered),
-                format!("# scheme: kzg10\n# case {}\n# supported={} deg={} hb={:?} rng={}\n", id, supported, deg, hb, with_rng));
+                format!("# scheme: kzg10\n# case {}\n# supported={} deg={} low-order zero coefficients={} hb={:?} rng={}\n", id, supported, deg, low_zeros, hb, with_rng));
         }
         let req = Req::new("kzg.commit").arg("pg", wire::fes(&pg)).arg("pgg", wire::fes(&pgg))
             .arg("p", wire::fes(&p.coeffs)).arg("hb", wire::opt_nat(hb)).arg("rng", wire::boolean(with_rng))
@@ -81,8 +86,8 @@ pub fn run(ctx: &mut Ctx) {
             Err(a) => ImplOutcome::Refuse(a),
         });
         ctx.rep.count(&format!("kzg10/in-domain-{}", in_domain));
-        ctx.rep.case(&format!("kzg10 s={} deg={} hb={:?} rng={} -> answered={}", supported, deg, hb, with_rng, answered),
-            Some(format!("kzg10/{}/{:?}/{}", deg as i64 - supported as i64, hb.map(|h| h as i64 - supported as i64), with_rng)));
+        ctx.rep.case(&format!("kzg10 s={} deg={} lowzeros={} hb={:?} rng={} -> answered={}", supported, deg, low_zeros, hb, with_rng, answered),
+            Some(format!("kzg10/{}/{}/{:?}/{}", deg as i64 - supported as i64, low_zeros > 0, hb.map(|h| h as i64 - supported as i64), with_rng)));
     }
     // setup(0)
     {
